@@ -1,7 +1,10 @@
 //! vharness — drives the real mls-rs crates for the correspondence checks of /verif.
 //! One sub-command per property; all randomness from one SplitMix64 seeded by --seed.
 mod c05;
+mod c11;
 mod c13;
+mod c16;
+mod c17;
 mod c20;
 mod hist;
 mod providers;
@@ -19,6 +22,9 @@ fn main() {
         "c20" => c20::run(&opts),
         "hist" => hist::run(&opts),
         "c13" => c13::run(&opts),
+        "c16" => c16::run(&opts),
+        "c17" => c17::run(&opts),
+        "c11" => c11::run(&opts),
         "c05" => c05::run(&opts),
         other => {
             eprintln!("unknown command {other}");
